@@ -121,6 +121,8 @@ pub fn generate(seed: u64, tier: Tier) -> Case {
     let mut notes = vec![];
 
     let mut worlds = vec![World::from_files(ptr, p.files())];
+    // Nodes that are not modules of the project: directory aliases (symbolic links).
+    let mut extra: Vec<crate::run::Node> = vec![];
     let nedits = rng.range(1, max_edits);
     for e in 0..nedits {
         let unrelated: Vec<usize> = (0..p.modules.len())
@@ -132,7 +134,45 @@ pub fn generate(seed: u64, tier: Tier) -> Case {
             .filter(|it| closed.contains(&it.module))
             .map(|it| it.name.clone())
             .collect();
-        match rng.below(12) {
+        match rng.below(14) {
+            12 | 13 => {
+                // A directory alias: a symbolic link to a directory of the tree makes every
+                // module below it exist a second time under the alias (nobody imports those).
+                // Aliases come, are renamed and go.
+                let dirs: BTreeSet<String> = p
+                    .modules
+                    .iter()
+                    .filter(|m| !m.deleted && m.path.len() >= 2)
+                    .map(|m| m.path[..rng.range(1, m.path.len() - 1)].join("/"))
+                    .collect();
+                let have: Vec<usize> = (0..extra.len()).collect();
+                if !have.is_empty() && rng.chance(1, 2) {
+                    let i = *rng.pick(&have);
+                    if rng.chance(1, 2) {
+                        extra.remove(i);
+                        notes.push("edit:remove_directory_alias".to_string());
+                    } else if let crate::run::Node::Symlink { path, .. } = &mut extra[i] {
+                        *path = format!("{}{e}_renamed", rng.pick(&["A", "z"]));
+                        notes.push("edit:rename_directory_alias".to_string());
+                    }
+                } else if !dirs.is_empty() {
+                    let dirs: Vec<String> = dirs.into_iter().collect();
+                    let target = rng.pick(&dirs).clone();
+                    // Sorting before or after the real directory, next to it.
+                    let name = format!("{}{e}_alias", rng.pick(&["A", "a", "z", "_"]));
+                    let (path, target) = match target.rsplit_once('/') {
+                        Some((parent, leaf)) if rng.chance(1, 2) => {
+                            (format!("{parent}/{name}"), leaf.to_string())
+                        }
+                        _ => {
+                            let ups = String::new();
+                            (name, format!("{ups}{target}"))
+                        }
+                    };
+                    extra.push(crate::run::Node::Symlink { path, target });
+                    notes.push("edit:add_directory_alias".to_string());
+                }
+            }
             0 | 1 => {
                 // A new module; some of its types share their short name with types the
                 // observed closure uses.
@@ -147,7 +187,36 @@ pub fn generate(seed: u64, tier: Tier) -> Case {
                         .map(|d| format!("n{}{}", d, rng.below(2)))
                         .collect()
                 };
-                path.push(format!("added{k}"));
+                // Called like nothing else, or (below a closure module) like one of that
+                // module's items or generated vftable types: `gfx.pyxis` declares `Texture`
+                // and there is `gfx/Texture.pyxis`.
+                let host_items: Vec<String> = p
+                    .modules
+                    .iter()
+                    .position(|m| !path.is_empty() && m.path == path)
+                    .map(|h| {
+                        p.items
+                            .iter()
+                            .filter(|it| it.module == h)
+                            .flat_map(|it| {
+                                let mut v = vec![it.name.clone()];
+                                if matches!(&it.kind, ItemKind::Type { vftable: Some(_), .. }) {
+                                    v.push(format!("{}Vftable", it.name));
+                                }
+                                v
+                            })
+                            .collect()
+                    })
+                    .unwrap_or_default();
+                if !host_items.is_empty() && rng.chance(1, 3) {
+                    path.push(rng.pick(&host_items).clone());
+                    notes.push("edit:module_called_like_item_of_closure_module".to_string());
+                } else {
+                    path.push(format!("added{k}"));
+                }
+                if p.modules.iter().any(|m| m.path == path) {
+                    path.push(format!("added{k}"));
+                }
                 p.modules.push(Module {
                     path,
                     type_imports: rng.chance(1, 2),
@@ -386,7 +455,9 @@ pub fn generate(seed: u64, tier: Tier) -> Case {
             }
             _ => {}
         }
-        worlds.push(World::from_files(ptr, p.files()));
+        let mut w = World::from_files(ptr, p.files());
+        w.input.extend(extra.iter().cloned());
+        worlds.push(w);
     }
 
     // One name coincidence, applied to every world of the chain alike (module paths stay as
